@@ -584,6 +584,7 @@ def shards(tier: str, seed: int) -> list[dict]:
     out = [{"kind": "model", "count": n} for _ in range(12)]
     out += [{"kind": "stdlib", "part": p, "parts": 4, "max": nfiles} for p in range(4)]
     out += [{"kind": "hostile", "count": 120 if tier == "quick" else 2500} for _ in range(2)]
+    out += [{"kind": "exprs", "count": 250 if tier == "quick" else 6000} for _ in range(2)]
     return out
 
 
@@ -607,6 +608,38 @@ def run_shard(spec: dict, rec) -> None:  # noqa: ANN001
                 continue
             judge_module(rec, src, model=False)
             rec.count("totality_files_visited")
+    elif spec["kind"] == "exprs":
+        from vf.gen.exprs import ExprGen
+
+        for _ in range(spec["count"]):
+            g = ExprGen(rng, clean=False)
+            parts = ["import typing\nfrom typing import TYPE_CHECKING\n"]
+            for i in range(rng.randint(2, 6)):
+                try:
+                    e = ast.unparse(g.top(rng.randint(1, 3)))
+                except Exception:  # noqa: BLE001
+                    continue
+                form = rng.randrange(8)
+                parts.append([f"@{e}\ndef f{i}(): ...\n", f"@{e}\nclass D{i}: ...\n", f"class B{i}({e}): ...\n", f"v{i} = {e}\n",
+                              f"a{i}: {e} = 1\n", f"def g{i}(p: {e} = {e}) -> {e}: ...\n",
+                              f"class K{i}:\n    c: {e} = {e}\n    @{e}\n    def m(self, q={e}): ...\n",
+                              f"__all__ = {e}\n"][form])
+            src = "".join(parts)
+            try:
+                compile(src, "<c01e>", "exec")
+            except (SyntaxError, ValueError, RecursionError):
+                # keep the statements that compile on their own
+                kept = [parts[0]]
+                for p in parts[1:]:
+                    try:
+                        compile(p, "<c01e>", "exec")
+                        kept.append(p)
+                    except (SyntaxError, ValueError, RecursionError):
+                        pass
+                src = "".join(kept)
+            judge_module(rec, src, model=False)
+            rec.count("totality_files_visited")
+            rec.count("expression_hostile_modules")
     else:
         files = stdlib_files()
         mine = [f for i, f in enumerate(files) if i % spec["parts"] == spec["part"]]
